@@ -321,44 +321,75 @@ def run_case(case, ctx):
         su, scur, sf = units[case["src"]]
     p = P(mknum(case["amt"]), su)
     a = F(p.amount)
-    need, target, factor = (c2, c1, 1 / rv) if op == "p/r" else (c1, c2, rv)
-    what = f"{op}: {p!r}, {r!r}"
-    cands = [(u, f) for u, cur, f in units if cur == target.symbol]
-    exact_c = [c for c in cands if c[1] == sf]
-    base_c = [c for c in cands if c[1] == 1]
-    if scur != need.symbol:
-        expect = None
-        ctx.label("compound/currency_mismatch")
-    elif exact_c:
-        expect = exact_c
-        ctx.label("compound/exact_unit")
-    elif base_c:
-        expect = base_c
-        ctx.label("compound/base_unit")
-    else:
-        expect = None
-        ctx.label("compound/missing_unit")
-    try:
-        res = _apply(op, p, r)
-    except QuantityError as exc:
-        if expect is not None:
-            ctx.viol(f"compound/{op}/rejected", f"{what} raised {type(exc).__name__}: {exc}; a target unit "
-                     f"{[str(c[0]) for c in expect]} is declared")
+    def judge(op, phase):
+        """One application of the rate; the expectation is computed from the units declared right now."""
+        need, target, factor = (c2, c1, 1 / rv) if op == "p/r" else (c1, c2, rv)
+        what = f"{op}: {p!r}, {r!r}" + (f" [{phase}]" if phase else "")
+        cands = [(u, f) for u, cur, f in units if cur == target.symbol]
+        exact_c = [c for c in cands if c[1] == sf]
+        base_c = [c for c in cands if c[1] == 1]
+        if scur != need.symbol:
+            expect = None
+            ctx.label("compound/currency_mismatch")
+        elif exact_c:
+            expect = exact_c
+            ctx.label("compound/exact_unit")
+        elif base_c:
+            expect = base_c
+            ctx.label("compound/base_unit")
+        else:
+            expect = None
+            ctx.label("compound/missing_unit")
+        ctx.tick()
+        tag = f"compound/{op}" + (f"/{phase}" if phase else "")
+        try:
+            res = _apply(op, p, r)
+        except QuantityError as exc:
+            if expect is not None:
+                ctx.viol(f"{tag}/rejected", f"{what} raised {type(exc).__name__}: {exc}; a target unit "
+                         f"{[str(c[0]) for c in expect]} is declared")
+            return expect is None
+        except Exception as exc:  # noqa: BLE001
+            ctx.viol(f"{tag}/raises/{type(exc).__name__}", f"{what} raised {type(exc).__name__}: {exc}")
+            return False
+        if expect is None:
+            ctx.viol(f"{tag}/accepted", f"{what} returned {res!r}; expected QuantityError (declared units: "
+                     f"{[str(u) for u, _, _ in units]})")
+            return False
+        if type(res) is not P:
+            ctx.viol(f"{tag}/type", f"{what} = {res!r}; expected a {P.__name__}")
+            return False
+        match = [c for c in expect if c[0] is res.unit]
+        if not match:
+            ctx.viol(f"{tag}/unit", f"{what} = {res!r}; expected unit among {[str(c[0]) for c in expect]}")
+            return False
+        want = a * sf * factor / match[0][1]
+        if isinstance(res.amount, float) or F(res.amount) != want:
+            ctx.viol(f"{tag}/value", f"{what} = {res!r}; expected amount {fs(want)}")
+            return False
+        return True
+
+    if not judge(op, ""):
         return
-    except Exception as exc:  # noqa: BLE001
-        ctx.viol(f"compound/{op}/raises/{type(exc).__name__}", f"{what} raised {type(exc).__name__}: {exc}")
+    # the same rate object in the other direction on the same price, then the first direction again: what a rate
+    # resolved once for a price unit says nothing about the opposite direction
+    other_op = "p/r" if op in ("p*r", "r*p") else "p*r"
+    if not judge(other_op, "other_direction"):
         return
-    if expect is None:
-        ctx.viol(f"compound/{op}/accepted", f"{what} returned {res!r}; expected QuantityError (declared units: "
-                 f"{[str(u) for u, _, _ in units]})")
+    if not judge(op, "again"):
         return
-    if type(res) is not P:
-        ctx.viol(f"compound/{op}/type", f"{what} = {res!r}; expected a {P.__name__}")
-        return
-    match = [c for c in expect if c[0] is res.unit]
-    if not match:
-        ctx.viol(f"compound/{op}/unit", f"{what} = {res!r}; expected unit among {[str(c[0]) for c in expect]}")
-        return
-    want = a * sf * factor / match[0][1]
-    if isinstance(res.amount, float) or F(res.amount) != want:
-        ctx.viol(f"compound/{op}/value", f"{what} = {res!r}; expected amount {fs(want)}")
+    # a target unit declared AFTER the rate has been applied: from now on it is the result unit
+    need, target = (c2, c1) if op == "p/r" else (c1, c2)
+    if scur == need.symbol and case.get("src_alias") is None:
+        d = case["decl"][case["src"]]
+        have = {(cur, f) for _, cur, f in units}
+        if (target.symbol, sf) not in have:
+            args = [target, xu[d[1]]] + ([yu[d[2]]] if yu else [])
+            try:
+                lu = P.derive_unit_from(*args, symbol=f"c10late{n}")
+            except Exception as exc:  # noqa: BLE001
+                ctx.viol(f"compound/declare_late/{type(exc).__name__}", f"late declaration raised {type(exc).__name__}: {exc}")
+                return
+            units.append((lu, target.symbol, sf))
+            ctx.label("compound/late_target")
+            judge(op, "late_target")
